@@ -345,11 +345,11 @@ Proof.
 Qed.
 
 (* the unfolding equations of the mutual recursion *)
-Lemma unref_S : forall V f w,
-  unref V (S f) w =
+Lemma unref_S : forall f w,
+  unref fixed (S f) w =
   (c <- getw w ;;
    if w_ref c <? 1 then fail Abort
-   else setw w (set_ref c (w_ref c - 1)) ;;; if w_ref c - 1 =? 0 then destroy V f w else ret tt).
+   else setw w (set_ref c (w_ref c - 1)) ;;; if w_ref c - 1 =? 0 then destroy fixed f w else ret tt).
 Proof. reflexivity. Qed.
 
 Lemma destroy_S_fixed : forall f w,
@@ -362,8 +362,8 @@ Lemma destroy_S_fixed : forall f w,
    freew w).
 Proof. reflexivity. Qed.
 
-Lemma destroy_loop_S : forall V f w,
-  destroy_loop V (S f) w =
+Lemma destroy_loop_S : forall f w,
+  destroy_loop fixed (S f) w =
   (cw <- getw w ;;
    match w_first cw with
    | None => ret tt
@@ -372,8 +372,8 @@ Lemma destroy_loop_S : forall V f w,
      setw w (set_first cw (w_next cc)) ;;;
      upd child (fun c => set_parent c None) ;;;
      upd child (fun c => set_next c None) ;;;
-     unref V f child ;;;
-     destroy_loop V f w
+     unref fixed f child ;;;
+     destroy_loop fixed f w
    end).
 Proof. reflexivity. Qed.
 
